@@ -120,7 +120,7 @@ def encounter_rows(rep, sc, quick):
     if o["rows"] < 500:
         raise MachineryError("only %d encounter rows executed" % o["rows"])
     rep.add(evaluations=o["rows"], traces_validated_against_impl=o["rows"])
-    rep.cov["encounter_rows"] = {"executed": o["rows"], "of": o["of"]}
+    rep.cov["encounter_rows"] = {"executed": o["rows"], "of": o["of"], "flybys": o.get("flybys")}
     for v in o["violations"][:6]:
         rw = v["row"]
         rep.violation("encounter:%s:tt%d:%s" % (v["clause"], rw["tt"], "sep%d" % rw["sep"]),
